@@ -450,6 +450,9 @@ pub fn fidelity_main(n_plans: u64) -> i32 {
         let planfile = base.join("fid-plan.json");
         std::fs::create_dir_all(&base).ok();
         std::fs::write(&planfile, serde_json::to_vec(&plan).unwrap()).unwrap();
+        if let Ok(keep) = std::env::var("VERIF_KEEP_FID_PLAN") {
+            let _ = std::fs::copy(&planfile, keep);
+        }
         let mut r = Rng::new(seed ^ 0xF1DE);
         for _ in 0..4 {
             let (ordinal, expect) = rec[r.below(rec.len() as u64) as usize];
